@@ -353,10 +353,10 @@ var litComplex = []string{"(1.0--2.0i)", "(1.0++2.0i)", "(1.0-+2.0i)", "(1.0+-2.
 	"(1.0e+308--1.0e+308i)", "(5.0e-324-5.0e-324i)", "(1.5+2.5i)", "(0.0+0.0i)", "(-1.5-2.5i)", "(3.0-4.0i)", "(1.0e+5-2.0E-3i)", "(+1.0+-2.0i)", "(-0.0-0.0i)", "(1.0+2.0e+10i)",
 	"(0.25-0.5i)", "(1.0E-7+1.0E+7i)"}
 var litRunes = []string{`'a'`, `'Z'`, `'0'`, `' '`, `'"'`, `'\''`, `'\\'`, `'\n'`, `'\t'`, `'\a'`, `'\b'`, `'\f'`, `'\r'`, `'\v'`, `'\x41'`, `'\xff'`, `'\x00'`,
-	`'☺'`, `'é'`, `'\U0001f600'`, `'\U0010ffff'`, `'☺'`, `'😀'`, `'é'`, `'['`, `','`, `'퟿'`, `''`}
+	`'☺'`, `'é'`, `'\U0001f600'`, `'\U0010ffff'`, `'\u00e9'`, `'\u263a'`, `'\uffff'`, `'\u0041'`, `'☺'`, `'😀'`, `'é'`, `'['`, `','`, `'퟿'`, `''`}
 var litStrings = []string{`""`, `"a"`, `"abc"`, `"Hello World!"`, `"a\"b"`, `"\\"`, `"tab\there"`, `"\x41\x42"`, `"☺"`, `"\U0001f600!"`, `"☺ é 😀"`,
 	`"\xff\xfe"`, `"it's"`, `"[1, 2](List)"`, `"\101"`, `"\x4F"`, `"\a\b\f\n\r\t\v"`, `"\\\""`, `"x\\"`, `"\"\""`, `"key"`, `"none"`, `"(Array)"`, `"é\xe9"`,
-	`"0123456789012345678901234567890123456789"`}
+	`"0123456789012345678901234567890123456789"`, `"\u00e9\u263a"`, `"a\u0041b\U0001f600\x7f"`}
 var litWords = []string{"true", "false", "nil"}
 
 // literals that the scanner accepts but that have no exact value: must be rejected
@@ -388,7 +388,7 @@ func (g *docGen) randomDigits(n int) string {
 }
 
 func (g *docGen) randomString() string {
-	pieces := []string{"a", "b", "z", " ", "é", "☺", "😀", `\"`, `\\`, `\n`, `\t`, `\x41`, `\x80`, `é`, `☺`, `\U0001f600`, "'", "[", "]", ":", ",", "(", ")", "0", "x", "#", "\t"}
+	pieces := []string{"a", "b", "z", " ", "é", "☺", "😀", `\"`, `\\`, `\n`, `\t`, `\x41`, `\x80`, `\u00e9`, `\ud7ff`, `é`, `☺`, `\U0001f600`, "'", "[", "]", ":", ",", "(", ")", "0", "x", "#", "\t"}
 	n := g.r.intn(8)
 	var sb strings.Builder
 	sb.WriteByte('"')
@@ -496,11 +496,18 @@ func (g *docGen) collection(depth, indent int, out *[]string) {
 			add(g.sp())
 		} else if g.r.chance(2, 3) {
 			add(" ")
+			if g.r.chance(1, 5) {
+				add(strings.Repeat(" ", 1+g.r.intn(3))) // "[   ]": the scanner drops the whole run
+			}
 		}
 	case multi:
 		for i := 0; i < n; i++ {
 			add("\n")
-			add(strings.Repeat(" ", 4*(indent+1)))
+			if g.r.chance(1, 6) {
+				add(strings.Repeat(" ", g.r.intn(10))) // any indentation, none included: spaces are not part of the grammar
+			} else {
+				add(strings.Repeat(" ", 4*(indent+1)))
+			}
 			if assoc {
 				add(g.intrinsic())
 				add(g.sp())
